@@ -5,6 +5,8 @@ text of the proposed fix (notes/fixes/C04-*.diff) are recognised; anything else 
   nilNodeOnly  `()` for rdf:nil: everywhere (`write_iri`) / only through `write_node` (subject, object, list item)
   walkStamp    `build_labelled` cycle walk: `visited: bool` shortcut / per-walk stamp marking re-entered cycles
   singleRest   `list_item`: `continue` on every rdf:rest / a second rdf:rest disqualifies the node
+  maxBnodeNesting  `MAX_BNODE_NESTING`: `[ … ]` nested at most that deep, deeper SubTree nodes are labelled and deferred to a
+               tree of their own after the roots of the graph (/repo da7f8f8); `none` for the code without cap
   indentTurtleWs  `TurtleConfig::with_indentation` (turtle.rs): accepts any `char::is_whitespace` (Unicode White_Space) /
                only the white space of the Turtle grammar (notes/fixes/C04-indent-turtle-ws.diff)
 `ExtractError`, `read`, `HEADER` are injected by tools/extract.py.
@@ -94,6 +96,37 @@ def _flags(repo):
         calls = re.findall(r"\bprettify\((.*?)\)", _squash(read(repo, rel)))
         if calls != ['dataset, &mut self.write, &self.config, ""']:
             raise ExtractError("%s: prettify is not called (once) with an empty base indentation: %r" % (rel, calls))
+    # ---- nesting cap of anonymous blank nodes (/repo da7f8f8)
+    sq = _squash(text)
+    wb = _fn(text, "write_bnode")
+    wg = _fn(text, "write_graph")
+    if wb is None or wg is None:
+        raise ExtractError("%s: fn write_bnode / write_graph not found" % REL)
+    if "MAX_BNODE_NESTING" not in text and "nesting" not in sq and "deferred" not in sq:
+        flags["maxBnodeNesting"] = None
+    else:
+        m = re.findall(r"const MAX_BNODE_NESTING: usize = (\d+);", text)
+        if len(m) != 1:
+            raise ExtractError("%s: MAX_BNODE_NESTING is not a single literal usize constant" % REL)
+        want_bnode = ('SubjectType::SubTree if self.nesting >= MAX_BNODE_NESTING => { self.labelled.insert(bn); self.deferred.push(i); '
+                      'write!(self.write, "_:{}", bn.bnode_id().unwrap().as_str())?; } '
+                      'SubjectType::SubTree => { self.write_bytes(b"[")?; self.nesting += 1; self.write_properties(s)?; '
+                      'self.nesting -= 1; self.write_bytes(b"]")?; self.subject_types[i].2 = SubjectType::Done; }')
+        want_graph = ('self.subject_types[i].2 = SubjectType::Done; } '
+                      '// blank nodes that were too deeply nested to be described inline '
+                      'while let Some(i) = self.deferred.pop() { let (_, s, _) = self.subject_types[i]; self.write_tree(s)?; '
+                      'self.subject_types[i].2 = SubjectType::Done; }')
+        if want_bnode not in wb:
+            raise ExtractError("%s: the nesting cap in write_bnode is not the text the model follows" % REL)
+        if want_graph not in wg:
+            raise ExtractError("%s: the deferred loop of write_graph is not the text the model follows" % REL)
+        code = re.sub(r"//[^\n]*", "", text)
+        counts = (len(re.findall(r"\bself\.nesting\b", code)), len(re.findall(r"\bself\.deferred\b", code)),
+                  len(re.findall(r"\bMAX_BNODE_NESTING\b", code)), len(re.findall(r"\bnesting: 0,", code)),
+                  len(re.findall(r"\bdeferred: vec!\[\],", code)), len(re.findall(r"self\.labelled\.insert\(", code)))
+        if counts != (3, 2, 2, 1, 1, 1):
+            raise ExtractError("%s: nesting / deferred / labelled are used in places the model does not know: %r" % (REL, counts))
+        flags["maxBnodeNesting"] = int(m[0])
     return flags
 
 
@@ -103,6 +136,9 @@ def _gen(repo):
     out = [HEADER, "namespace SophiaModel.Gen.PrettyFlags\n"]
     for k in ("nilNodeOnly", "walkStamp", "singleRest", "indentTurtleWs"):
         out.append("def %s : Bool := %s\n" % (k, b(flags[k])))
+    cap = flags["maxBnodeNesting"]
+    out.append("/-- `MAX_BNODE_NESTING` of _pretty.rs (`none`: the code has no nesting cap) -/\n")
+    out.append("def maxBnodeNesting : Option Nat := %s\n" % ("none" if cap is None else "some %d" % cap))
     out.append("end SophiaModel.Gen.PrettyFlags\n")
     return "".join(out), {"flags": flags}
 
